@@ -528,6 +528,47 @@ Section MuxProofs.
     cbn [handler_of]. now rewrite Hm.
   Qed.
 
+  (** *** the router never looks at URL.RawPath: two requests that agree on host, method,
+      decoded path, headers and client address are answered alike (and share the cache key) *)
+  Definition same_but_raw (a b : request) : Prop :=
+    rq_host a = rq_host b /\ rq_method a = rq_method b /\ rq_path a = rq_path b /\
+    rq_headers a = rq_headers b /\ rq_ip a = rq_ip b.
+
+  Lemma paths_dec_raw : forall a b ps hm mm, same_but_raw a b -> paths_dec a ps hm mm = paths_dec b ps hm mm.
+  Proof.
+    intros a b ps hm mm (H1 & H2 & H3 & H4 & H5). revert hm mm.
+    induction ps as [|p ps IH]; intros hm mm; cbn [Mux.paths_dec]; [reflexivity|].
+    unfold Mux.path_match, method_match, Mux.headers_match, Mux.cond_all, Mux.cond_any.
+    rewrite H2, H3, H4, !IH. reflexivity.
+  Qed.
+
+  Lemma rules_dec_raw : forall a b rs hm mm, same_but_raw a b -> rules_dec a rs hm mm = rules_dec b rs hm mm.
+  Proof.
+    intros a b rs hm mm H. revert hm mm.
+    induction rs as [|r rs IH]; intros hm mm; cbn [Mux.rules_dec]; [reflexivity|].
+    rewrite (paths_dec_raw a b _ hm mm H), !IH.
+    destruct H as (H1 & H2 & H3 & H4 & H5).
+    unfold Mux.host_match, Mux.allow_all. rewrite H1, H5.
+    destruct (paths_dec b (ru_paths r) hm mm); [reflexivity|]. now rewrite IH.
+  Qed.
+
+  Theorem rawpath_irrelevant : forall sv a b,
+    same_but_raw a b ->
+    serve_nocache sv a = serve_nocache sv b /\ (forall q, mk_key q a = mk_key q b).
+  Proof.
+    intros sv a b H. split.
+    - unfold Mux.serve_nocache, Mux.search_nocache, Mux.search_dec.
+      rewrite (rules_dec_raw a b _ false false H).
+      destruct H as (H1 & H2 & H3 & H4 & H5).
+      unfold Mux.allow_all. rewrite H5.
+      destruct (forallb _ (fl (sv_filter sv))); cbn [negb]; [|reflexivity].
+      destruct (rules_dec b (sv_rules sv) false false) as [p own vis hm'| |]; cbn [add_vis Mux.result_of]; try reflexivity.
+      unfold Mux.allow_all. rewrite H5.
+      destruct (forallb _ (fl (pe_filter p))); [|reflexivity].
+      cbn [Mux.dispatch]. now rewrite H3.
+    - intro q. destruct H as (H1 & H2 & H3 & _). unfold mk_key. now rewrite H1, H2, H3.
+  Qed.
+
   (** *** router-level C05 clauses, cache-less *)
   Theorem denied_403_nocache : forall sv rq,
     denied sv rq = true -> serve_nocache sv rq = Failed 403.
